@@ -34,22 +34,23 @@ LEVEL_TEXT = ('Lean theorems for every CSS parity-check matrix (pure-X / pure-Z 
               'growth by half-edges, find_root with path compression, merge_clusters, _update_parents, the '
               'breadth-first spanning tree, peeling, the correction vector) are modelled executably '
               '(Model/UnionFind.lean) and compared with the running implementation step by step on every run; for '
-              'every graph-like matrix (0/1, columns of weight <= 2, no parallel edges), every syndrome and every '
-              'iteration order of the Python sets it is proved that _build_tree returns a spanning tree of every '
-              'connected cluster, that peeling a spanning tree with an even number of defects returns qubits whose '
-              'boundary is exactly the defect set, that whenever the growth loop terminates every cluster is '
-              'connected and even, and hence that Support.decode() returns a binary length-n vector with exactly '
-              'the given syndrome (partial correctness: termination of the growth loop is tested, not proved); the '
-              'model is proved to FAIL on Toric2DCode(2,2) (parallel edges) exactly as the implementation does.')
+              'every closed graph (0/1 matrix, every column of weight 0 or 2, no parallel edges: the toric lattices '
+              'with sides >= 3), every error and every iteration order of the Python sets it is proved that the growth '
+              'loop terminates, every cluster is connected and even, _build_tree returns a spanning tree, peeling '
+              'returns qubits whose boundary is exactly the defect set, and Support.decode() returns a binary '
+              'length-n vector with exactly the given syndrome, which discharges the union-find solver contract: '
+              'UnionFindDecoder.decode reproduces the syndrome with no hypothesis left; with dangling edges (planar '
+              'codes) partial correctness is proved and non-termination exhibited; the model is proved to FAIL on '
+              'Toric2DCode(2,2) (parallel edges) exactly as the implementation does.')
 LEVEL_NOTE = ('trusted (modelled, not verified): PyMatching Matching.decode (returns a minimum-weight solution of '
               'H c = s), ldpc BpOsdDecoder.decode (return value solves H c = s for s in im H); each contract is '
-              'tested on every run by the spy. uf_support.Support is no longer a black box: its internals are '
-              'modelled + tied by a step-granular correspondence (growth states, parent arrays incl. path '
-              'compression, cluster records, spanning trees, peeling rounds, correction) + proved partially correct '
-              'for graph-like matrices; NOT proved: termination of Support.clustering (false on matrices with '
-              'columns of weight 1 when a component carries an odd number of defects: the real code loops for ever, '
-              'observed and compared); CPython set iteration order is not modelled: recorded from the run and fed '
-              'to the model, which validates it; theorems hold for every order. Tested only, not '
+              'tested on every run by the spy. uf_support.Support is not a black box: its internals are modelled, tied '
+              'by a step-granular correspondence (growth states, parent arrays incl. path compression, cluster '
+              'records, spanning trees, peeling rounds, correction) and proved totally correct on closed graphs for '
+              'every set iteration order; CPython set iteration order is not modelled: recorded from the run and fed '
+              'to the model, which validates it. Not proved for all sizes: that Toric2DCode with sides >= 3 has '
+              'closed-graph sector matrices (evaluated per size by the compiled model and independently in numpy; '
+              'decide for 3x3). Tested only, not '
               'proved: constructibility of every (decoder, allowed code) pair; "returns a binary length-2n vector '
               'without raising" for the incomplete decoders (sweep-match, MBP, XCube matching), whose internals '
               'are modelled by interface only (sweep automata: C10).')
@@ -59,12 +60,12 @@ TRUSTED = ['PyMatching Matching(H, spacelike_weights=w).decode(s): minimum-weigh
            '(contract hypothesis; tested against the full coset in C09)',
            'ldpc BpOsdDecoder.decode(s): returned vector solves H c = s whenever s is in the image of H; it is a '
            'function of (matrix, channel probabilities, syndrome) (contract hypothesis; tested by the spy)',
-           'panqec uf_support.Support(s, H).decode(): in Properties/C05 still a contract hypothesis of the glue '
-           'theorem (solves H c = s); discharged for the Lean model of the internals up to termination of the '
-           'growth loop by Properties/C05UnionFind (graph-like matrices, every set iteration order); model tied to '
-           'the implementation by a step-granular correspondence on every run; numpy/scipy semantics of the '
-           'matrix operations used by uf_support.py (boolean-mask assignment on csr matrices, np.where order, '
-           'np.unique, uint8 product H @ H.T) as transcribed',
+           'panqec uf_support.Support(s, H).decode(): contract hypothesis of the glue theorem in Properties/C05, '
+           'DISCHARGED for the Lean model of the internals on closed graphs by Properties/C05UnionFind '
+           '(uf_solver_contract, every set iteration order); model tied to the implementation by a step-granular '
+           'correspondence on every run; numpy/scipy semantics of the matrix operations used by uf_support.py '
+           '(boolean-mask assignment on csr matrices, np.where order, np.unique, uint8 product H @ H.T, set '
+           'iteration order fixed for one set object) as transcribed',
            'SweepDecoder3D / RotatedSweepDecoder3D .decode return a Z-only vector of length 2n (black box here; C10)']
 ASSUMPTIONS = ['syndromes are syndromes of Pauli errors (s = H e); parity-check entries are 0/1',
                'per-qubit marginals px+py, pz+py lie in (0, 1/2) for the zero-syndrome claim (positive weights)']
